@@ -379,7 +379,17 @@ def _(c):
             rws = [b.list([b.int(f"x{i}"), b.real(f"y{i}"), b.int(f"z{i}")]) for i in range(n)]
             return dict(args=[b.obj(RC), b.list(COLS), b.list(rws)])
         c.scenario(f"n{n}", pre)
-    c.ensures("rowsof(self) == [tuple(r) for r in rows]", "rows-kept")
+    # rows given as dicts (keys in any order), mixed with lists, and columns taken from the first dict row when none are declared
+    def pre_d(b):
+        rws = [b.dict({"x": b.int("x0"), "y": b.real("y0"), "z": b.int("z0")}), b.dict({"z": b.int("z1"), "x": b.int("x1"), "y": b.real("y1")}), b.list([b.int("x2"), b.real("y2"), b.int("z2")])]
+        return dict(args=[b.obj(RC), b.list(COLS), b.list(rws)], env=dict(want=None))
+    c.scenario("dict-rows", pre_d)
+
+    def pre_nc(b):
+        rws = [b.dict({"x": b.int("x0"), "y": b.real("y0"), "z": b.int("z0")}), b.dict({"z": b.int("z1"), "x": b.int("x1"), "y": b.real("y1")})]
+        return dict(args=[b.obj(RC), b.list([]), b.list(rws)])
+    c.scenario("dict-rows-no-columns-declared", pre_nc)
+    c.ensures("rowsof(self) == [(tuple([r[k] for k in ['x', 'y', 'z']]) if isinstance(r, dict) else tuple(r)) for r in rows] and list(self._columns) == ['x', 'y', 'z']", "rows-kept")
     c.no_raise()
 
 
